@@ -241,6 +241,11 @@ func (pConn *PFCPConn) Shutdown() {
 	// Cleanup all sessions in this conn
 	for _, sess := range pConn.store.GetAllSessions() {
 		pConn.upf.SendMsgToUPF(upfMsgTypeDel, sess.PacketForwardingRules, PacketForwardingRules{})
+
+		if err := releaseAllocatedIPs(pConn.upf.ippool, &sess); err != nil {
+			logger.PfcpLog.Errorln("failed to release the UE IP address of session", sess.localSEID, err)
+		}
+
 		pConn.RemoveSession(sess)
 	}
 
